@@ -37,9 +37,11 @@ Proof. reflexivity. Qed.
 Lemma pin_section_eq_consts : do_build_section_eq_consts = ["lua"%bs : bytes; "lua"%bs : bytes].
 Proof. reflexivity. Qed.
 
+(* the four optional attributes the model reads with a default are read that way by do_build *)
 Lemma pin_getattr_names :
-  do_build_getattr_names = ["lua_path"%bs : bytes; "optimize_tokens"%bs : bytes; "lua_format"%bs : bytes; "lua_minify"%bs : bytes].
-Proof. reflexivity. Qed.
+  forallb (fun n => existsb (zlist_eqb n) do_build_getattr_names)
+          ["lua_path"%bs : bytes; "optimize_tokens"%bs : bytes; "lua_format"%bs : bytes; "lua_minify"%bs : bytes] = true.
+Proof. vm_compute. reflexivity. Qed.
 
 Lemma pin_formatters_order : formatters_order = [".p8.png"%bs : bytes; ".p8"%bs : bytes; ".rom"%bs : bytes].
 Proof. reflexivity. Qed.
